@@ -1182,3 +1182,95 @@ Proof.
     + destruct i as [|i']; [exact I|exact HL].
     + destruct (Nat.eqb_spec (S i) (length s)) as [E|E]; [left; rewrite Lm; lia|right; exact HR].
 Qed.
+
+(* ---------- J. any two items of which one is a label: no guard needed ------
+   The gaps between items i < j add up to both half widths, all widths in
+   between and one spacing per hop; a hop that leaves or enters a label uses
+   nodeSp (only stub/stub hops use lineSp).  So if item i or item j is not a
+   stub, the sum is at least (w_i + w_j)/2 + nodeSp = gap o a c. *)
+
+Lemma items_ok_nth s i a : items_ok s -> nth_error s i = Some a -> 0 <= wid a.
+Proof.
+  intros I H. unfold items_ok in I. rewrite Forall_forall in I. apply I. eapply nth_error_In; exact H.
+Qed.
+
+(* both half widths are always in the sum *)
+Lemma gaps_halfwidths o s : opts_ok o -> items_ok s ->
+  forall j i a c, (i < j)%nat -> nth_error s i = Some a -> nth_error s j = Some c ->
+  wid a / 2 + wid c / 2 <= Qsum (slice i j (gaps o s)).
+Proof.
+  intros O I. induction j as [|j IH]; intros i a c Hij Ha Hc; [lia|].
+  assert (Hjl : (j < length s)%nat).
+  { assert (S j < length s)%nat by (apply nth_error_Some; congruence). lia. }
+  destruct (nth_error s j) as [b|] eqn:Hb; [|apply nth_error_None in Hb; lia].
+  destruct (gaps_nth o s j b c Hb Hc) as [E L].
+  rewrite slice_snoc by lia. rewrite Qsum_app, Qsum_cons, Qsum_nil, E.
+  pose proof (spacing_nonneg o b c O) as Sp.
+  pose proof (items_ok_nth s j b I Hb) as Wb.
+  assert (Hb2 : 0 <= wid b / 2) by (apply Qle_shift_div_l; lra).
+  unfold gap. rewrite half_eq.
+  destruct (Nat.eq_dec i j) as [->|Ne].
+  - rewrite slice_same, Qsum_nil. assert (a = b) by congruence. subst. lra.
+  - pose proof (IH i a b ltac:(lia) Ha eq_refl). lra.
+Qed.
+
+Lemma gaps_from_label o s : opts_ok o -> items_ok s ->
+  forall j i a c, (i < j)%nat -> nth_error s i = Some a -> nth_error s j = Some c ->
+  stub a = false ->
+  (wid a + wid c) / 2 + nodeSp o <= Qsum (slice i j (gaps o s)).
+Proof.
+  intros O I. induction j as [|j IH]; intros i a c Hij Ha Hc Sa; [lia|].
+  assert (Hjl : (j < length s)%nat).
+  { assert (S j < length s)%nat by (apply nth_error_Some; congruence). lia. }
+  destruct (nth_error s j) as [b|] eqn:Hb; [|apply nth_error_None in Hb; lia].
+  destruct (gaps_nth o s j b c Hb Hc) as [E L].
+  rewrite slice_snoc by lia. rewrite Qsum_app, Qsum_cons, Qsum_nil, E.
+  pose proof (spacing_nonneg o b c O) as Sp.
+  pose proof (items_ok_nth s j b I Hb) as Wb.
+  rewrite half_eq. unfold gap. rewrite half_eq.
+  destruct (Nat.eq_dec i j) as [->|Ne].
+  - rewrite slice_same, Qsum_nil. assert (a = b) by congruence. subst.
+    unfold spacing. rewrite Sa. cbn [andb]. lra.
+  - pose proof (IH i a b ltac:(lia) Ha eq_refl Sa) as B. rewrite half_eq in B.
+    assert (0 <= wid b / 2) by (apply Qle_shift_div_l; lra). lra.
+Qed.
+
+Lemma gaps_to_label o s : opts_ok o -> items_ok s ->
+  forall j i a c, (i < j)%nat -> nth_error s i = Some a -> nth_error s j = Some c ->
+  stub c = false ->
+  (wid a + wid c) / 2 + nodeSp o <= Qsum (slice i j (gaps o s)).
+Proof.
+  intros O I j i a c Hij Ha Hc Sc. destruct j as [|j]; [lia|].
+  assert (Hjl : (j < length s)%nat).
+  { assert (S j < length s)%nat by (apply nth_error_Some; congruence). lia. }
+  destruct (nth_error s j) as [b|] eqn:Hb; [|apply nth_error_None in Hb; lia].
+  destruct (gaps_nth o s j b c Hb Hc) as [E L].
+  rewrite slice_snoc by lia. rewrite Qsum_app, Qsum_cons, Qsum_nil, E.
+  pose proof (items_ok_nth s j b I Hb) as Wb.
+  rewrite half_eq. unfold gap. rewrite half_eq.
+  assert (Sp : spacing o b c = nodeSp o).
+  { unfold spacing. rewrite Sc. destruct (stub b); reflexivity. }
+  rewrite Sp.
+  destruct (Nat.eq_dec i j) as [->|Ne].
+  - rewrite slice_same, Qsum_nil. assert (a = b) by congruence. subst. lra.
+  - pose proof (gaps_halfwidths o s O I j i a b ltac:(lia) Ha Hb).
+    assert (0 <= wid b / 2) by (apply Qle_shift_div_l; lra). lra.
+Qed.
+
+(* C01 for any two items of a layer of which at least one is a label *)
+Theorem C01_pairwise_labels_lemma o its i j a c : opts_ok o -> items_ok its ->
+  (i < j)%nat -> nth_error (sorted_items its) i = Some a -> nth_error (sorted_items its) j = Some c ->
+  stub a = false \/ stub c = false ->
+  let pos := solve_layer o its in
+  (wid a + wid c) / 2 + nodeSp o - 1 <= inject_Z (nth j pos 0%Z) - inject_Z (nth i pos 0%Z).
+Proof.
+  intros O I Hij Ha Hc S pos. subst pos.
+  assert (Hj : (j < length its)%nat).
+  { assert (j < length (sorted_items its))%nat by (apply nth_error_Some; congruence).
+    unfold sorted_items in *. rewrite sort_length in *. assumption. }
+  pose proof (C01_separation_lemma o its i j Hij Hj) as Sep. cbn zeta in Sep.
+  pose proof (sorted_items_ok its I) as I'.
+  destruct S as [S|S].
+  - pose proof (gaps_from_label o _ O I' j i a c Hij Ha Hc S). lra.
+  - pose proof (gaps_to_label o _ O I' j i a c Hij Ha Hc S). lra.
+Qed.
